@@ -392,6 +392,62 @@ func genLiveX(r *kit.Rand, fe fnExpr, hs []string) []string {
 	return []string{line}
 }
 
+// ---- HTTP entry points ----
+var lpBodies = []string{
+	"m,host=a v=1i 1\n", "m v=1.5\n", "m,host=a,region=b v=1i,w=\"s\",b=t 1000000000\nm2 x=2 2\n", "", "\n\n", "m", "m ", "m v", "m v=", "m v=1i 1 1", "m,=a v=1",
+	",host=a v=1", "m,host v=1", "m v=1i -9223372036854775808", "m v=1i 9223372036854775808", "m v=9223372036854775808i", "m v=1e400", "m v=NaN", "m v=\"unterminated",
+	"m\\ x,ho\\,st=a\\=b v\\ =1", "m v=1i 1\r\n", "\xff\xfe v=1", "m \xff=1", "m v=\"\xff\"", "m,host=\x00 v=1", "m v=1i " + strings.Repeat("9", 40), strings.Repeat("m,host=a v=1i 1\n", 200),
+	"m v=1i,v=2i", "m,host=a,host=b v=1", "# comment\nm v=1", "m v=t", "m v=T,w=F,x=true,y=FALSE", "m v=-", "m v=.", "m v=1.i", "m v=0x10", "m v=1u",
+}
+var httpPrecisions = []string{"", "n", "u", "ms", "s", "m", "h", "x", "ns", "%00", "nn", "S"}
+
+func urlq(s string) string {
+	var b strings.Builder
+	for i := 0; i < len(s); i++ {
+		c := s[i]
+		if c >= 'a' && c <= 'z' || c >= 'A' && c <= 'Z' || c >= '0' && c <= '9' || c == '_' || c == '-' || c == '.' {
+			b.WriteByte(c)
+		} else {
+			fmt.Fprintf(&b, "%%%02X", c)
+		}
+	}
+	return b.String()
+}
+
+func genHTTP(r *kit.Rand) []string {
+	body := kit.Pick(r, lpBodies)
+	if r.Chance(1, 2) {
+		body = mutate(r, body)
+	}
+	switch r.Intn(10) {
+	case 0, 1, 2, 3, 4, 5:
+		path := kit.Pick(r, []string{"/kapacitor/v1/write", "/write", "/kapacitor/v1preview/write", "/kapacitor/v1/write/"})
+		var q []string
+		if !r.Chance(1, 8) {
+			q = append(q, "db="+urlq(kit.Pick(r, []string{"db", "", "nodb", "d b", "д", "a/b", "\x00"})))
+		}
+		if !r.Chance(1, 4) {
+			q = append(q, "rp="+urlq(kit.Pick(r, []string{"rp", "", "norp", "r p", "\xff"})))
+		}
+		if r.Chance(2, 3) {
+			q = append(q, "precision="+kit.Pick(r, httpPrecisions))
+		}
+		if r.Chance(1, 6) {
+			q = append(q, kit.Pick(r, []string{"consistency=all", "consistency=bogus", "u=x&p=y", "db=db&db=other", "%zz=1", "a=%", ";=;"}))
+		}
+		if len(q) > 0 {
+			path += "?" + strings.Join(q, "&")
+		}
+		return []string{"http " + kit.Pick(r, []string{"POST", "POST", "POST", "POST", "POST", "POST", "POST", "GET", "PUT", "DELETE", "OPTIONS", "HEAD", "PATCH"}) + " " + kit.Esc(path) + " " +
+			kit.Pick(r, []string{"plain", "plain", "plain", "gzip", "badgzip", "truncgzip"}) + " " + kit.Esc(body)}
+	case 6:
+		return []string{"http " + kit.Pick(r, []string{"GET", "HEAD", "POST", "OPTIONS"}) + " " + kit.Esc(kit.Pick(r, []string{"/kapacitor/v1/ping", "/kapacitor/v1/debug/vars", "/kapacitor/v1/debug/pprof/cmdline", "/kapacitor/v1/debug/pprof/symbol", "/", "/kapacitor/v1", "/kapacitor/v1/", "/kapacitor/v1/nosuch", "/kapacitor/v1preview/ping", "/kapacitor/v1/:routes", "/kapacitor/v1/routes", "//write", "/kapacitor/v1/../v1/ping", "/kapacitor/v1/ping?%zz"})) + " plain %"}
+	default:
+		return []string{"http POST " + kit.Esc("/kapacitor/v1/loglevel") + " " + kit.Pick(r, []string{"plain", "badgzip"}) + " " +
+			kit.Esc(kit.Pick(r, []string{`{"level":"DEBUG"}`, `{"level":"nosuch"}`, `{"level":1}`, `{`, ``, `null`, `[]`, `{"level":null}`, `"x"`, "\xff"}))}
+	}
+}
+
 func lexLines(s string, kinds ...string) []string {
 	e := kit.Esc(s)
 	ls := []string{"lex " + e}
@@ -429,6 +485,10 @@ func generate(f kit.Flags) [][]string {
 	for _, d := range varsDocs {
 		cases = append(cases, []string{"json vars " + kit.Esc(d)})
 	}
+	cases = append(cases, []string{"http POST " + kit.Esc("/kapacitor/v1/write?db=db&rp=rp&precision=s") + " plain " + kit.Esc("m,host=a v=1i 1\n")},
+		[]string{"http POST " + kit.Esc("/kapacitor/v1/write?db=db&rp=rp") + " gzip " + kit.Esc("m,host=a v=1i 1\n")},
+		[]string{"http POST " + kit.Esc("/kapacitor/v1/write?db=db&rp=rp") + " badgzip " + kit.Esc("m v=1")},
+		[]string{"http GET " + kit.Esc("/kapacitor/v1/ping") + " plain %"})
 	cases = append(cases, []string{"udfwrite i f s b"}, []string{"udfwrite i d i"}, []string{"udfwrite n i"}, []string{"udfwrite t u i"})
 
 	// (2) ALL strings over the alphabet up to length 3 (quick) / 4 (thorough); the longest length is
@@ -507,6 +567,10 @@ func generate(f kit.Flags) [][]string {
 			}
 			cases = append(cases, []string{"udfsrv " + strings.Join(genUDFSeq(r), " ")})
 		case 7:
+			if r.Chance(1, 2) {
+				cases = append(cases, genHTTP(r))
+				break
+			}
 			b := genUDFBytes(r)
 			cases = append(cases, []string{fmt.Sprintf("udfread %s %d", kit.Esc(string(b)), r.Intn(4))})
 		}
